@@ -38,7 +38,10 @@ def load_known():
 def _sig_match(pattern: dict, sig: dict) -> bool:
     for k, want in pattern.items():
         have = sig.get(k)
-        if isinstance(want, list):
+        if isinstance(want, dict) and "not" in want:
+            if have in want["not"]:
+                return False  # e.g. {"kind": {"not": [...]}}: symptoms this finding cannot explain are never absorbed by it
+        elif isinstance(want, list):
             if have not in want:
                 return False
         elif have != want:
